@@ -1256,7 +1256,9 @@ fn mode_run(args: &[String]) -> i32 {
         };
         let reproduces = m.still_fails(&runs_parsed);
         if reproduces {
-            let (min, attempts) = minimise(runs_parsed, &class, meta.clone(), &format!("{}.tmp", path), 500);
+            // VERIF_NO_MINIMISE=1 (sensitivity matrices only): keep the unminimised trace, save the replays
+            let budget = if std::env::var("VERIF_NO_MINIMISE").as_deref() == Ok("1") { 0 } else { 500 };
+            let (min, attempts) = minimise(runs_parsed, &class, meta.clone(), &format!("{}.tmp", path), budget);
             let mut mm = Minimiser {
                 class: class.clone(),
                 tmp: format!("{}.tmp", path),
